@@ -105,7 +105,7 @@ impl Property for C13 {
             "from_bytes: every byte count 0..=capacity/8+2 (<=42) x both endiannesses x two patterns x 20 types".into(),
         ]
     }
-    fn enumerate(&self, _tier: Tier, sh: &mut Shard, f: &mut dyn FnMut(C13Case) -> bool) {
+    fn enumerate(&self, tier: Tier, sh: &mut Shard, f: &mut dyn FnMut(C13Case) -> bool) {
         for ty in 0..NT {
             let c = fixed_cap(ty).unwrap_or(320);
             let top = if fixed_cap(ty).is_some() { c + 9 } else { c };
@@ -136,6 +136,21 @@ impl Property for C13 {
                         }
                     }
                 }
+            }
+        }
+        for (ty, len) in dense_lengths(tier) {
+            if !sh.mine() {
+                continue;
+            }
+            let need = (len + 7) / 8;
+            let bytes: Vec<u8> = (0..need + 1).map(|i| (i as u8).wrapping_mul(37).wrapping_add(0x81) | 0x80).collect();
+            for big in [false, true] {
+                if !f(C13Case::Read { ty, bytes: bytes.clone(), len, big, chunked: len % 7 == 0 }) {
+                    return;
+                }
+            }
+            if !f(C13Case::Out { a: Operand::canon(ty, dense_value(len)) }) {
+                return;
             }
         }
         for ty in 0..NT {
